@@ -143,6 +143,9 @@ class StmtMixin:
                 yield ("raise", v), s
                 continue
             ok = True
+            for t in node.targets:
+                if isinstance(t, ast.Name) and t.id in getattr(self, "annotations", {}):
+                    self.annotate_empty(self.annotations[t.id], v, s)
             cur = [(s, None)]
             for t in node.targets:
                 nxt = []
@@ -157,6 +160,9 @@ class StmtMixin:
 
     def st_AnnAssign(self, node, st):
         if node.value is None:
+            if isinstance(node.target, ast.Name):
+                self.annotations = getattr(self, "annotations", {})
+                self.annotations[node.target.id] = node.annotation
             yield ("next",), st
             return
         for v, s in self.ev(node.value, st):
